@@ -137,9 +137,10 @@ def _decide(agent, markets):
         else:
             pbt = menu.get("price_by_time")
             if pbt is not None and pbt.get(str(t), pbt.get("default")) != "sym":
-                p = pbt.get(str(t), pbt.get("default"))
+                # other steps of this run use solver-chosen prices: keep the role "price" proxied throughout
+                p = g.const(pbt.get(str(t), pbt.get("default")))
             elif "price_rel" in menu:
-                p = m.get_market_price() + (-menu["price_rel"] if is_buy else menu["price_rel"])
+                p = g.const(m.get_market_price() + (-menu["price_rel"] if is_buy else menu["price_rel"]))
             elif "price_fixed" in menu:
                 p = menu["price_fixed"]
             else:
